@@ -13,6 +13,8 @@ import (
 	"math"
 	"strconv"
 	"strings"
+
+	"github.com/matrix-org/gomatrixserverlib/spec"
 )
 
 const raInf = int64(1) << 53 // creators in v12 ("infinite")
@@ -812,3 +814,58 @@ func raParsePDU(version string, ev jv) (PDU, error) {
 	}
 	return impl.NewEventFromTrustedJSON([]byte(jplain(ev)), false)
 }
+
+// raFailingProvider answers like inner, except that its failAt-th lookup fails (a database-backed
+// provider whose query fails). With membersOnly set only the member / third-party-invite lookups are
+// counted and can fail (the lookups whose failure Allowed reports to its caller; a failed create /
+// power-levels / join-rules lookup is read as "no such event" by the checker, by design).
+type raFailingProvider struct {
+	inner       *AuthEvents
+	failAt      int
+	membersOnly bool
+	n           int
+	failed      bool
+}
+
+func (p *raFailingProvider) tick(member bool) error {
+	if p.membersOnly && !member {
+		return nil
+	}
+	p.n++
+	if p.n == p.failAt {
+		p.failed = true
+		return fmt.Errorf("rauth: provider lookup %d failed", p.n)
+	}
+	return nil
+}
+func (p *raFailingProvider) Create() (PDU, error) {
+	if err := p.tick(false); err != nil {
+		return nil, err
+	}
+	return p.inner.Create()
+}
+func (p *raFailingProvider) JoinRules() (PDU, error) {
+	if err := p.tick(false); err != nil {
+		return nil, err
+	}
+	return p.inner.JoinRules()
+}
+func (p *raFailingProvider) PowerLevels() (PDU, error) {
+	if err := p.tick(false); err != nil {
+		return nil, err
+	}
+	return p.inner.PowerLevels()
+}
+func (p *raFailingProvider) Member(k spec.SenderID) (PDU, error) {
+	if err := p.tick(true); err != nil {
+		return nil, err
+	}
+	return p.inner.Member(k)
+}
+func (p *raFailingProvider) ThirdPartyInvite(k string) (PDU, error) {
+	if err := p.tick(true); err != nil {
+		return nil, err
+	}
+	return p.inner.ThirdPartyInvite(k)
+}
+func (p *raFailingProvider) Valid() bool { return p.inner.Valid() }
